@@ -48,7 +48,7 @@ def CmpOp.all : List CmpOp := [.ord, .partialOrd, .eq, .partialEq, .hash]
 def CmpOp.str : CmpOp → String
   | .ord => "Ord" | .partialOrd => "PartialOrd" | .eq => "Eq" | .partialEq => "PartialEq" | .hash => "Hash"
 def CmpOp.fromStr (s : String) : Option CmpOp := CmpOp.all.find? (·.str == s)
-def CmpOp.path : CmpOp → Toks
+def CmpOp.path : CmpOp → GToks
   | .ord => absPath ["core", "cmp", "Ord"]
   | .partialOrd => absPath ["core", "cmp", "PartialOrd"]
   | .eq => absPath ["core", "cmp", "Eq"]
@@ -91,7 +91,7 @@ def Kind.str : Kind → String
   | .copy => "Copy" | .clone => "Clone" | .debug => "Debug" | .dflt => "Default"
   | .deref => "Deref" | .derefMut => "DerefMut"
 
-def Kind.path : Kind → Toks
+def Kind.path : Kind → GToks
   | .bin o => absPath ["core", "ops", o.str]
   | .assign o => absPath ["core", "ops", o.str ++ "Assign"]
   | .un o => absPath ["core", "ops", o.str]
@@ -135,9 +135,9 @@ def WCB.pushField (w : WCB) (ty : Ty) : WCB :=
   if ty.mentions w.gps then { w with types := w.types ++ [ty] } else w
 
 /-- the where-clause items, in emission order -/
-def WCB.items (w : WCB) (f : Ty → Toks) : List Toks := w.types.map (fun t => f t.parenIfPlus) ++ w.preds.map WPred.toks
+def WCB.items (w : WCB) (f : Ty → GToks) : List GToks := w.types.map (fun t => f t.parenIfPlus) ++ w.preds.map (fun p => U p.toks)
 
-def WCB.build (w : WCB) (f : Ty → Toks) : Toks :=
+def WCB.build (w : WCB) (f : Ty → GToks) : GToks :=
   let ws := w.items f
   if ws.isEmpty then [] else "where" :: termBy "," ws
 
@@ -146,7 +146,7 @@ def WCB.pushIf (w : WCB) (use : Bool) (b : Bounds) : WCB × Bool :=
   if use then w.pushBounds b else (w, false)
 
 /-- `#ident #type_g` as tokens and as a type -/
-def thisTyToks (name : String) (g : Generics) : Toks := name :: g.useToks
+def thisTyToks (name : String) (g : Generics) : GToks := u name :: U g.useToks
 /-- a generic parameter in argument position: `'a`, `T`, `N` -/
 def paramArg : GParam → GArg
   | .lt n _ => .lt n
@@ -436,28 +436,28 @@ def FieldE.pushBoundsTo (f : FieldE) (use : Bool) (kind : Kind) (w : WCB) : WCB 
   if u then w.pushField f.field.ty else w
 
 /-- `build_ctor_args` -/
-def ctorArgs (fs : Fields) (values : List Toks) : Toks :=
+def ctorArgs (fs : Fields) (values : List GToks) : GToks :=
   match fs.kind with
   | .named =>
-    brace ((fs.fields.zip values).flatMap fun (f, v) => (f.name.getD "") :: ":" :: v ++ [","])
+    brace ((fs.fields.zip values).flatMap fun (f, v) => u (f.name.getD "") ::: ":" ::: v +++ [","])
   | .unnamed => paren (termBy "," values)
   | .unit => []
 
-def withRef (ts : Toks) (isRef : Bool) : Toks := if isRef then "&" :: ts else ts
+def withRef (ts : GToks) (isRef : Bool) : GToks := if isRef then "&" :: ts else ts
 
 /-- `this.member` -/
-def memberOf (this : Tok) (f : FieldE) : Toks := [this, ".", f.member]
+def memberOf (this : GTok) (f : FieldE) : GToks := [this, ".", u f.member]
 
-def VariantE.makePatWith (v : VariantE) (pre : String) (selfPath : Toks) : Toks :=
-  selfPath ++ "::" :: v.variant.name :: ctorArgs v.variant.fields (v.fields.map fun f => [f.makeIdent pre])
+def VariantE.makePatWith (v : VariantE) (pre : String) (selfPath : GToks) : GToks :=
+  selfPath ++ (("::" : GTok) :: u v.variant.name :: ctorArgs v.variant.fields (v.fields.map fun f => [(f.makeIdent pre : GTok)]))
 
-def VariantE.makePat (v : VariantE) (pre : String) : Toks := v.makePatWith pre ["Self"]
+def VariantE.makePat (v : VariantE) (pre : String) : GToks := v.makePatWith pre ["Self"]
 
-def VariantE.makePatWildcard (v : VariantE) : Toks :=
-  "Self" :: "::" :: v.variant.name ::
-    (match v.variant.fields.kind with
-     | .named => brace [".."]
-     | .unnamed => paren [".."]
-     | .unit => [])
+def VariantE.makePatWildcard (v : VariantE) : GToks :=
+  let rest : GToks := match v.variant.fields.kind with
+    | .named => brace [".."]
+    | .unnamed => paren [".."]
+    | .unit => []
+  "Self" :: "::" :: u v.variant.name :: rest
 
 end DX
